@@ -1058,7 +1058,10 @@ static std::string rnd_text(rng &r, size_t n)
 static void emit(const char *op, const std::string &payload) { printf("%s %s\n", op, hex(payload).c_str()); }
 static void emit(const char *op, const bytes &payload) { printf("%s %s\n", op, hex(payload).c_str()); }
 
-static void gen_round3(rng &r, bool th)
+// Round 3b (quick-tier time): the two generator functions only print op lines and never call igris; compiled at
+// -O0 and without sanitizer instrumentation they cost 1 s instead of 18 s of g++ time (31 s -> 13 s user for this file)
+#define C18_GEN_ONLY __attribute__((optimize("O0"), no_sanitize("address", "undefined")))
+C18_GEN_ONLY static void gen_round3(rng &r, bool th)
 {
     // (0) round 3: what the build contains (both alphabets as printed by the encoders, type widths, the
     // compiled branch of access.h), the pre-main battery, HIHALF/LOHALF on every byte
@@ -1148,7 +1151,7 @@ static void gen_round3(rng &r, bool th)
     }
 }
 
-static void gen(rng &r, const std::string &tier)
+C18_GEN_ONLY static void gen(rng &r, const std::string &tier)
 {
     bool th = tier == "thorough";
     puts("alpha");
